@@ -42,6 +42,26 @@ CHECKS = {
             "Trusted: the exception classification and the line-event budget; recorded findings in known_findings.json "
             "(hostile __str__ of a mapping key; Timestamp.pre_validate).",
             "DESIGN.md §3 C04"),
+    "C05": ("bounded-exhaustive product-space exploration of the real data-class parser against a documentation-derived "
+            "reference model of the field contract (mapping view, attribute view, set of reported errors)",
+            "Data classes of 1-2 fields over the whole Field menu (27 entries: required / default / factory / defer / alias / "
+            "alias_from / case_insensitive / no_input / no_output / mode / dependencies / on_error) x 20 class option sets "
+            "x runtime options via __from__ x both base classes x every assignment of {absent, valid, convertible, other "
+            "valid, invalid} to every recognised key spelling (singles and conflicting pairs) and an unknown key; each "
+            "input parsed fail-fast and collecting; verdict, mapping view, attribute view and error set compared with "
+            "utmc/dcmodel.py.",
+            "Trusted: utmc/dcmodel.py (transcribed from docs/en/references/field.md and options.md); corners the "
+            "documentation leaves open are don't-care sets and are counted in the evidence (facts.undecided_by_docs).",
+            "DESIGN.md §3 C05"),
+    "C06": ("bounded-exhaustive differential exploration: every configuration of the C05 universe (data classes and "
+            "decorated functions) executed with data-first and field-first lookup, fail-fast and collecting",
+            "Every (declaration, options, input) of the C05 universe plus the same field menu as keyword parameters of a "
+            "decorated function is run four times (2 strategies x fail-fast/collecting): equal verdict, equal mapping / "
+            "attribute / bound-argument views, equal sets of failing items under collection, fail-fast error among them.",
+            "Differential oracle, no model. When both strategies report an alias conflict on a field the further errors "
+            "about that field are not compared (they depend on which spelling each loop meets first); under "
+            "ignore_alias_conflicts the winning spelling is undocumented and not compared.",
+            "DESIGN.md §3 C06"),
     "C16": ("explicit-state exploration (DFS with state dedup) of register/resolve histories on the real "
             "TypeRegistry against a cache-free reference model",
             "All histories of register/resolve operations up to depth 4 (quick) / 5 (thorough) over a menu of "
